@@ -2,7 +2,7 @@
 """keep_seeded.py <ID> <name> <json-meta>: copies a confirmed sub-agent change from /tmp/mut/<ID> into /verif/seeded/<name>/"""
 import sys, os, shutil, json, subprocess
 wid, name, meta = sys.argv[1], sys.argv[2], json.loads(sys.argv[3])
-src = f"/tmp/mut/{wid}"; dst = f"/verif/seeded/{name}"
+src = os.environ.get("MUTBASE","/tmp/mut") + f"/{wid}"; dst = f"/verif/seeded/{name}"
 lid = wid.lower().split('-')[0]
 os.makedirs(dst, exist_ok=True)
 patch = subprocess.check_output(["git", "-C", src, "diff", "--", ".", f":!demo_{lid}"], text=True)
